@@ -1,6 +1,7 @@
 package cmp
 
 import (
+	"math"
 	"time"
 
 	pref "google.golang.org/protobuf/reflect/protoreflect"
@@ -59,11 +60,9 @@ func DurationValueWithinP(p float32) Value {
 		if returnEarly {
 			return equal, ok
 		}
-		pd := float32(xd) / float32(yd)
-		if pd < 0 {
-			pd = -pd
-		}
-		return pd < p, true
+		// the difference, as a percentage of the larger of the two durations
+		diff, larger := math.Abs(float64(xd-yd)), math.Max(math.Abs(float64(xd)), math.Abs(float64(yd)))
+		return diff <= float64(p)/100*larger, true
 	}
 }
 
